@@ -85,21 +85,24 @@ type SConn struct {
 	Enc    *refhpack.Encoder
 
 	// what we allow the client to send
-	ConnWin    int64
-	InitWin    int64
-	StreamWin  map[uint32]int64
-	MaxFrame   int64 // our SETTINGS_MAX_FRAME_SIZE, in force once acknowledged
-	pendingMF  []int64
-	pendingTbl []tblChange
-	FCViol     string
-	MaxConc    int64 // our SETTINGS_MAX_CONCURRENT_STREAMS as acknowledged (-1 unlimited)
-	pendingMC  []int64
-	open       map[uint32]bool
-	answered   map[uint32]bool
-	MaxOpen    int
-	ConcViol   string
-	Acks       int
-	SetSent    int
+	ConnWin     int64
+	InitWin     int64
+	StreamWin   map[uint32]int64
+	MaxFrame    int64 // our SETTINGS_MAX_FRAME_SIZE, in force once acknowledged
+	pendingMF   []int64
+	pendingWin  []int64 // INITIAL_WINDOW_SIZE of each unacknowledged SETTINGS frame (-1: not named)
+	winAcked    int64
+	winAckedSet bool
+	pendingTbl  []tblChange
+	FCViol      string
+	MaxConc     int64 // our SETTINGS_MAX_CONCURRENT_STREAMS as acknowledged (-1 unlimited)
+	pendingMC   []int64
+	open        map[uint32]bool
+	answered    map[uint32]bool
+	MaxOpen     int
+	ConcViol    string
+	Acks        int
+	SetSent     int
 
 	ready      chan struct{}
 	readerGone atomic.Bool
@@ -284,17 +287,15 @@ func (c *SConn) Write(b []byte) error {
 func (c *SConn) SendSettings(kv [][2]uint32) {
 	c.mu.Lock()
 	c.SetSent++
-	mf, mc := int64(-1), int64(-2)
+	mf, mc, win := int64(-1), int64(-2), int64(-1)
 	var tbl tblChange
 	for _, s := range kv {
 		switch s[0] {
 		case 4:
 			if s[1] <= 0x7fffffff {
-				d := int64(s[1]) - c.InitWin
-				c.InitWin = int64(s[1])
-				for id := range c.StreamWin {
-					c.StreamWin[id] += d
-				}
+				// a larger window holds from the moment we say so; a smaller one binds the client once it has
+				// acknowledged the frame (octets sent before that were sent under the old value)
+				win = int64(s[1])
 			}
 		case 5:
 			mf = int64(s[1])
@@ -331,10 +332,32 @@ func (c *SConn) SendSettings(kv [][2]uint32) {
 		}
 	}
 	c.pendingTbl = append(c.pendingTbl, tbl)
+	c.pendingWin = append(c.pendingWin, win)
+	c.applyWinLocked()
 	c.pendingMF = append(c.pendingMF, mf)
 	c.pendingMC = append(c.pendingMC, mc)
 	c.mu.Unlock()
 	_ = c.Write(rawframe.Append(nil, rawframe.Settings, 0, 0, rawframe.SettingsPayload(kv)))
+}
+
+// applyWinLocked sets the initial stream window the ledger holds the client to: the largest of the value it has
+// acknowledged and the values of the SETTINGS frames it has not acknowledged yet (it may be acting on any of them).
+func (c *SConn) applyWinLocked() {
+	eff := int64(65535)
+	if c.winAckedSet {
+		eff = c.winAcked
+	}
+	for _, w := range c.pendingWin {
+		if w > eff {
+			eff = w
+		}
+	}
+	if d := eff - c.InitWin; d != 0 {
+		c.InitWin = eff
+		for id := range c.StreamWin {
+			c.StreamWin[id] += d
+		}
+	}
 }
 
 func (c *SConn) SendWindowUpdate(id uint32, n uint32) {
@@ -465,6 +488,13 @@ func (c *SConn) readLoop() {
 			if g.IsAck() {
 				c.mu.Lock()
 				c.Acks++
+				if len(c.pendingWin) > 0 {
+					if w := c.pendingWin[0]; w >= 0 {
+						c.winAcked, c.winAckedSet = w, true
+					}
+					c.pendingWin = c.pendingWin[1:]
+					c.applyWinLocked()
+				}
 				if len(c.pendingMF) > 0 {
 					if c.pendingMF[0] >= 0 {
 						c.MaxFrame = c.pendingMF[0]
